@@ -519,6 +519,10 @@ func ParseNodeString(node string) (*NodeID, string) {
 		return nil, ""
 	}
 	nodeID := BytesToNodeID(common.FromHex(trunks[0]))
+	// 128 characters that are not 64 hex-encoded bytes (non-hex digits, "0x" prefix)
+	if nodeID == nil {
+		return nil, ""
+	}
 	_, err := nodeID.PubKey()
 	if err != nil {
 		return nil, ""
